@@ -144,7 +144,7 @@ def run(ctx):
             aliases = list(case.aliases)
             if k == 3 and A.size(e) > 2:
                 from . import c05
-                inj = c05.inject_clash(rng, e)
+                inj = c05.inject_clash(rng, e) if rng.random() < 0.5 else (c05.inject_reuse(rng, e) if t == gen.BOOL else None)
                 if inj is not None:
                     e = inj[0]
         if not A.renderable(e):
